@@ -107,7 +107,7 @@ func genC10(m *M, histories, length int) {
 				m.ENegate(r)
 			case 18, 19:
 				// multiply by a small scalar most of the time (the validator's ladder is as long as the scalar)
-				if small := isSmall(m.S[sa].Encode()); small || fullMuls < 1 {
+				if small := isSmall(m.S[sa].Encode()); small || (fullMuls < 1 && h%3 == 0) {
 					if !small {
 						fullMuls++
 					}
